@@ -38,6 +38,15 @@ TripleMixes == {[t \in Threads |-> IF t = "t1" THEN a ELSE IF t = "t2" THEN b EL
                   b \in {Op("get", "s1", "A"), Op("get", "s1", "B"), Op("get", "s2", "A")},
                   c \in {Op("close", "s1", NONE), Op("pclose", "prov", NONE), Op("cancel", "s1", NONE)}}
 
+\* two closers and a user: a Close that loses the race returns while the winner is still disposing - the scope
+\* itself refuses from then on (cached instances included)
+TwoClosersQuick == {[t \in Threads |-> IF t = "t1" THEN Op("close", "s1", NONE) ELSE IF t = "t2" THEN b ELSE Op("get", "s1", "A")] :
+                       b \in {Op("close", "s1", NONE), Op("pclose", "prov", NONE)}}
+TwoClosersMixes == {[t \in Threads |-> IF t = "t1" THEN a ELSE IF t = "t2" THEN b ELSE c] :
+                       a \in {Op("close", "s1", NONE), Op("cancel", "s1", NONE), Op("pclose", "prov", NONE)},
+                       b \in {Op("close", "s1", NONE), Op("pclose", "prov", NONE), Op("close", "s2", NONE)},
+                       c \in {Op("get", "s1", "A"), Op("get", "s2", "A"), Op("get", "s1", "T"), Op("create", "s1", NONE)}}
+
 PreNone == {}
 PreAB == {<<"s1", "B">>, <<"s1", "A">>, <<"s2", "B">>, <<"s2", "A">>}
 PreS1 == {<<"s1", "B">>, <<"s1", "A">>}
